@@ -5,7 +5,8 @@ import (
 	"errors"
 	"fmt"
 	"net/http"
-	"regexp"
+	"strconv"
+	"strings"
 	"time"
 
 	"github.com/oauth2-proxy/oauth2-proxy/v7/pkg/apis/options"
@@ -69,11 +70,9 @@ func (s *SessionStore) Load(req *http.Request) (*sessions.SessionState, error) {
 // Clear clears any saved session information by writing a cookie to
 // clear the session
 func (s *SessionStore) Clear(rw http.ResponseWriter, req *http.Request) error {
-	// matches CookieName, CookieName_<number>
-	var cookieNameRegex = regexp.MustCompile(fmt.Sprintf("^%s(_\\d+)?$", s.Cookie.Name))
-
+	// matches CookieName and the names splitCookie gives to the parts of a split cookie
 	for _, c := range req.Cookies() {
-		if cookieNameRegex.MatchString(c.Name) {
+		if isSessionCookieName(s.Cookie.Name, c.Name) {
 			clearCookie := s.makeCookie(req, c.Name, "", time.Hour*-1)
 
 			http.SetCookie(rw, clearCookie)
@@ -200,6 +199,25 @@ func splitCookieName(name string, count int) string {
 		splitName = fmt.Sprintf("%s_%d", name[:len(name)-overflow], count)
 	}
 	return splitName
+}
+
+// isSessionCookieName reports whether name is cookieName itself or one of the
+// names splitCookieName derives from it for the parts of a split cookie
+// (which truncates long names, so a regular expression on cookieName does not
+// describe them).
+func isSessionCookieName(cookieName, name string) bool {
+	if name == cookieName {
+		return true
+	}
+	idx := strings.LastIndex(name, "_")
+	if idx < 0 {
+		return false
+	}
+	count, err := strconv.Atoi(name[idx+1:])
+	if err != nil || count < 0 {
+		return false
+	}
+	return splitCookieName(cookieName, count) == name
 }
 
 // loadCookie retreieves the sessions state cookie from the http request.
